@@ -24,7 +24,7 @@ func init() {
 		Title: "The decoded packet does not depend on how the stream is fragmented",
 		Level: "model_checking",
 		Rule: "stateless exploration of the real ReadPacket under a scripted io.Reader: one choice point per Read call with the menu {deliver all asked, deliver k for every 1<=k<asked, (0,nil) (bounded per execution), deliver the final bytes together with io.EOF}; " +
-			"the stream is handed to ReadPacket through six reader implementations over that scripted source (itself; bufio.Reader with a 16- and a 4096-byte buffer and one that already holds data when handed over; a reader of its own type offering ReadByte/Peek/Discard/Buffered/WriteTo; io.LimitedReader) and, contiguously, through bytes.Buffer, bytes.Reader and strings.Reader; fixed periodic schedules with up to hundreds of idle (0,nil) reads in total (k idle reads before every chunk of 1, 7, 512, 4096, 65536 bytes, or 99/100/101 idle reads before each maximal chunk) are run on every frame; " +
+			"the stream is handed to ReadPacket through six reader implementations over that scripted source (itself; bufio.Reader with a 16- and a 4096-byte buffer and one that already holds data when handed over; a reader of its own type offering ReadByte/Peek/Discard/Buffered/WriteTo; io.LimitedReader) and, contiguously, through bytes.Buffer, bytes.Reader and strings.Reader; every corpus frame is also read with a PUBACK and a PINGREQ following it on the same stream (one delivery and segments of 3, 4096, 65536 bytes: same result, exactly the frame consumed); fixed periodic schedules with up to hundreds of idle (0,nil) reads in total (k idle reads before every chunk of 1, 7, 512, 4096, 65536 bytes, or 99/100/101 idle reads before each maximal chunk) are run on every frame; " +
 			"frames <= 10 bytes: the complete tree with up to 2 zero-length reads; longer frames: every execution with at most 2 non-default answers (3 for frames <= 48 bytes; thorough: 4 for frames <= 24 bytes, 3 for frames <= 100 bytes, two zero-length reads everywhere); four frames of 0.3-2.2 MB (CONNECT, CONNACK, SUBSCRIBE, PUBLISH) with 3 over a coarse menu of short counts {1, half, all but one}; frames of 4 090, 5 000 and 9 000 bytes with 1 (plus one 70 KiB frame in the thorough tier); every frame of the valid corpus V (~2.7k frames, one per field shape) with 1 (quick) / 2 (thorough). " +
 			"Every execution's result (accessor observation + String + re-encoding, or rejection) must equal the contiguous execution's. " +
 			"states = distinct (frame, reader position, answers so far) prefixes = choice points visited; transitions = Read answers executed; a trace is one complete delivery schedule, all run on the implementation; distinct_nontrivial = distinct schedules with at least one non-default answer.",
@@ -191,6 +191,17 @@ func runC07(x *core.Ctx) {
 			}
 			c07Single(x, f, ref, k, nil, "contiguous."+k.String())
 		}
+		// the frame followed by more data on the stream: the same result, and
+		// exactly the frame consumed, also when frame end and what follows
+		// arrive together or in odd segments
+		if fi < nCorpus {
+			for _, pat := range []*env.Pattern{nil, {Chunk: 4096}, {Chunk: 65536}, {Chunk: 3}} {
+				if pat != nil && pat.Chunk == 3 && len(f.B) > 20000 {
+					continue
+				}
+				c07Tail(x, f, ref, pat)
+			}
+		}
 		// fixed periodic schedules with hundreds of idle reads in total
 		for _, pat := range c07Patterns(len(f.B)) {
 			pat := pat
@@ -248,6 +259,38 @@ func runC07(x *core.Ctx) {
 			}
 			c07Explore(x, f, ref, b, maxZero, stratum, k)
 		}
+	}
+}
+
+// c07Tail: the frame followed by a PUBACK and a PINGREQ on the same stream.
+func c07Tail(x *core.Ctx, f CFrame, ref string, pat *env.Pattern) {
+	run := func() *core.Finding {
+		resetGlobals()
+		stream := append(append([]byte{}, f.B...), 0x40, 0x02, 0x00, 0x01, 0xc0, 0x00)
+		r := &env.Reader{Data: stream, Pat: pat}
+		p, err, res := readPacket(r, stepBudget(len(stream)))
+		out := outcome(p, err, res)
+		mk := func(class, what string) *core.Finding {
+			return &core.Finding{Class: class + "/followed-by-more-data", Sig: map[string]string{"frame": f.Name},
+				Detail: fmt.Sprintf("frame %s (%s) followed by a PUBACK and a PINGREQ on the same stream (segments: %v): %s", f.Name, abbrevHex(f.B), pat, what)}
+		}
+		if out != ref {
+			return mk("differs", fmt.Sprintf("gives %q; the frame alone gives %q", clip(out, 160), clip(ref, 160)))
+		}
+		if out != "rejected" && r.Off != len(f.B) {
+			return mk("consumed", fmt.Sprintf("%d bytes drawn from the stream, the frame has %d", r.Off, len(f.B)))
+		}
+		return nil
+	}
+	x.Eval("followed-by-more-data")
+	x.R.Traces++
+	x.R.States++
+	if fd := run(); fd != nil {
+		params := map[string]any{"name": f.Name, "tail": true}
+		if pat != nil {
+			params["chunk"] = pat.Chunk
+		}
+		x.Report(fd, func() core.Case { return core.Case{Harness: "c07.tail", Frame: hexOf(f.B), Params: params} }, run)
 	}
 }
 
@@ -322,6 +365,9 @@ func c07Explore(x *core.Ctx, f CFrame, ref string, bound, maxZero int, stratum s
 }
 
 func replayC07(c core.Case) *core.Finding {
+	if c.Harness == "c07.tail" {
+		return nil // re-run the check: the frame corpus rebuilds the (possibly megabyte-sized) frame by name
+	}
 	frame := unhex(c.Frame)
 	ref, _ := c07Exec(frame, nil, 0, false, env.KRaw, nil)
 	var pat *env.Pattern
